@@ -125,6 +125,15 @@ CHECKS = {
             "perturbation test to recognise genuine discontinuities. Known finding D21 (trench closest point misses the 2 pi "
             "alias) is identified at its call site and reported as such.",
             "proof over Reals of the invariance of the geometric kernels + bit-exact correspondence on moved worlds + moved-world oracle", "4 C08"),
+    "C10": ("Theorems (Properties_C10.v; layout theorems axiom-free): in the layout model SlabLayout.v (segment table assembled "
+            "from feature, section entries, segments; later entries win) writing inherited models into every segment, and "
+            "repeating the default segments as a section entry for every coordinate, build the same table; an override changes "
+            "the row of its own coordinate only, hence anything computed from the two rows next to the foot is unchanged "
+            "elsewhere; [R] section_interp is the convex combination (1-f)a+fb, equals a at f=0 and b at f=1 and stays between "
+            "them. The layout model is tied to parameters.cc/subducting_plate.cc/fault.cc only through the oracle (the slab "
+            "evaluation is not modelled yet): equivalent re-layouts and single-coordinate overrides run on the implementation, "
+            "bit-identical answers required (away from the overridden coordinate's two intervals, taken from the trench foot).",
+            "proof about the layout/inheritance model + re-layout and override-locality oracle on the implementation", "4 C10"),
 }
 
 NOT_YET = {
